@@ -372,3 +372,46 @@ def check(run, prog, tier):
                    what="%s calls %s() on a reload of the master object: every object holding the old root/backbone uid is renamed" % (f.name, n["fn"]))
             k += 1
     run.need(nd >= 3, "uid record name stores and rename calls (found %d)" % nd)
+
+    # ---- C20-e no pointer to a uid record outlives the records
+    run.rule("C20-e", "the records behind uid and euid are freed in bulk when the driver is taken down; the file-scope pointers to the well-known records (root, backbone) are cleared by the function that frees them, on every path behind the bulk free - otherwise the next start in the same process sees them non-null, set_root_uid()/set_backbone_uid() rename a freed record instead of creating one, and the backbone test of object creation compares against freed memory", 2)
+    uptrs = sorted(k for k, g in prog.globals().items() if "userid" in (g.get("t") or "") and (g.get("t") or "").rstrip().endswith("*"))
+    freers = set()
+    for f in prog.functions():
+        for b, i, n in f.calls():
+            if n.get("fn") in ("free", "FREE", "xfree") and n.get("args") and "userid" in (strip(n["args"][0]).get("t") or ""):
+                freers.add(f.name)
+    ne = 0
+    for f in sorted(prog.functions(), key=lambda x: (x.file, x.line)):
+        if f.name in freers:
+            continue
+        for b, i, n in f.calls():
+            bulk = [strip(a).get("n") for a in n.get("args", []) if strip(a).get("k") == "Ref" and strip(a).get("d") == "func" and strip(a).get("n") in freers]
+            if not bulk and n.get("fn") not in freers:
+                continue
+            if n.get("fn") in freers and not bulk:
+                # a single record freed directly: not the bulk release
+                continue
+            run.saw(f)
+            for g in uptrs:
+                ne += 1
+                # cleared anywhere in the function that frees the records, on every path through it (in front of the bulk
+                # free is as good as behind it: nothing in between can set the pointer again without a store here)
+                clears = set()
+                sets = False
+
+                def zero(e):
+                    e = strip(e)
+                    return const_val(e) == 0 or (e.get("k") == "Asg" and e.get("op") == "=" and zero(e["R"]))
+                for b2, i2, n2 in f.nodes():
+                    if n2.get("k") == "Asg" and n2.get("op") == "=" and strip(n2["L"]).get("k") == "Ref" and strip(n2["L"]).get("n") == g and strip(n2["L"]).get("d") in ("global", "static"):
+                        if zero(n2["R"]):
+                            clears.add(b2.id)
+                        else:
+                            sets = True
+                ok = not sets and bool(clears) and (b.id in clears or f.reach_avoiding([f.entry], lambda blk: blk.id == f.exit, avoid_blocks=clears) is None)
+                run.ob("C20-e", "cleared:%s:%s" % (f.name, g), ok, "%s is set to 0 on every path behind %s(.., %s)" % (g, n.get("fn"), bulk[0]) if ok else
+                       "%s() frees every uid record with %s(.., %s) at line %s and leaves `%s` pointing at one of them: after the next init in this process %s sees it non-null and works on freed memory" % (
+                           f.name, n.get("fn"), bulk[0], n.get("l"), g, "set_root_uid()" if "root" in g else "set_backbone_uid()" if "backbone" in g else "its user"),
+                       f.file, n.get("l"), f.name, what="%s frees the uid records and leaves %s dangling" % (f.name, g))
+    run.need(ne >= 2, "bulk release of uid records x file-scope record pointers (found %d)" % ne)
